@@ -346,7 +346,7 @@ def run_shard(spec, acc, ctx):
         if ctx.out_of_time():
             acc.note(f"{spec['name']}: time budget hit after {s} sequences")
             break
-        runner.run(rng, rng.randint(5, 50))
+        runner.run(rng, rng.randint(5, 50) if acc.counters.get("cases", 0) % 50 != 9 else rng.randint(400, 1200))
         acc.count("cases")
         acc.count("cases." + clsname)
         acc.add("distinct", fp(clsname, spec["index"], s))
